@@ -51,7 +51,11 @@ ValsZeros == {Lit(VFloat(FZ), <<48, 46, 48>>), [v |-> VFloat(FNZ), t |-> <<TOp("
               [v |-> VTuple(<<VNat(1), VFloat(FZ)>>), t |-> <<TOp("("), TLit(VNat(1), <<49>>), TOp(","), ZeroLit, TOp(")")>>],
               [v |-> VTuple(<<VNat(1), VFloat(FNZ)>>), t |-> <<TOp("("), TLit(VNat(1), <<49>>), TOp(","), TOp("-"), ZeroLit, TOp(")")>>],
               Lit(VNat(1), <<49>>)}
-Vals == IF Size = "full" THEN ValsFull ELSE IF Size = "zeros" THEN ValsZeros ELSE ValsSmall
+\* "names2" also assigns values whose source form itself assigns the OTHER variable: x op= (b = 2; 3) - the right-hand side of
+\* every assignment operator is evaluated with the same (mutable) rights as the assignment
+NestB == [v |-> VNat(2), t |-> <<TOp("("), TId(NB), TOp("="), TLit(VNat(1), <<49>>), TOp(";"), TLit(VNat(2), <<50>>), TOp(")")>>]
+Vals == IF Size = "full" THEN ValsFull ELSE IF Size = "zeros" THEN ValsZeros
+        ELSE IF Size = "names2" THEN ValsSmall \cup {NestB} ELSE ValsSmall
 \* "zeros" also has two behaviours per function name (a function that is bound again must be replaced) and the name of
 \* a builtin among the function names (max: defining and clearing it changes what `max(1, 2)` resolves to)
 Behs == IF Size \in {"full", "zeros"} THEN {BehId, BehConst(VNat(1))} ELSE {BehId}
@@ -146,8 +150,10 @@ TypeStable ==
        (Live(s) /\ n \in DOMAIN ctxs[s].vars /\ n \in DOMAIN ctxs'[s].vars
         /\ ~(LastCall.op \in {"clear", "clear_variables"}) /\ ~(LastCall.op = "clone" /\ LastCall.slot # s))
        => ctxs'[s].vars[n].t = ctxs[s].vars[n].t]_<<ctxs, hist>>
-\* a failed call leaves every context unchanged
-FailedCallAtomic == [][LastObs.p = "err" => ctxs' = ctxs]_<<ctxs, hist>>
+\* a failed call leaves every context unchanged - unless its own source text contains a completed inner assignment
+\* (x = (b = 1; 2): what was evaluated before the failure persists, C08); nothing is claimed here for those
+FailedCallAtomic ==
+  [][LastObs.p = "err" /\ ~(\E i \in 3..Len(LastCall.toks) : LastCall.toks[i] = OpText["="]) => ctxs' = ctxs]_<<ctxs, hist>>
 \* an operation on one slot leaves the other unchanged, except clone
 CloneIndependent == [][\A s \in Slots : (LastCall.slot # s /\ LastCall.op # "clone") => ctxs'[s] = ctxs[s]]_<<ctxs, hist>>
 \* functions and the switch are untouched by variable operations, and variables by function operations
